@@ -272,7 +272,7 @@ theorem specsFree_toList : ∀ (ks : Nodes), ks.specsFree = true → ∀ n ∈ k
     · exact specsFree_toList r h.2 n hn
 
 theorem specsFree_tags (ks : Nodes) (h : ks.specsFree = true) :
-    ∀ t ∈ (ks.toList.zipIdx.map fun (n, i) => (⟨i, n⟩ : Tag)), t.node.specsFree = true := by
+    ∀ t ∈ (ks.toList.zipIdx.map fun (n, i) => ({ idx := i, node := n } : Tag)), t.node.specsFree = true := by
   intro t ht
   simp only [List.mem_map] at ht
   obtain ⟨⟨n, i⟩, hm, rfl⟩ := ht
@@ -579,7 +579,8 @@ theorem reusePrepare_specsFree' (ev : Evalr ρ) (st : St ρ) (re : Elem) (ik : E
             exact reuse_final re inst1 orig kids hn1 hs _ _ hn2 ik (Except.ok.inj h2).symm
 
 /-- the tags `onePass` leaves pending are among those it was given -/
-theorem onePass_remain (ev : Evalr ρ) (P : Tag → Prop) : ∀ (fuel : Nat) (st : St ρ) (ts : List Tag) outs bb rem,
+theorem onePass_remain (ev : Evalr ρ) (P : Tag → Prop) (hP : ∀ (t : Tag) g, P t → P { t with failGen := g }) :
+    ∀ (fuel : Nat) (st : St ρ) (ts : List Tag) outs bb rem,
     (∀ t ∈ ts, P t) → (∀ t ∈ rem, P t) → ∀ r, (onePass ev fuel st ts outs bb rem).2 = .ok r → ∀ t ∈ r.2.2, P t := by
   intro fuel
   induction fuel with
@@ -608,7 +609,7 @@ theorem onePass_remain (ev : Evalr ρ) (P : Tag → Prop) : ∀ (fuel : Nat) (st
           · refine ih _ _ _ _ _ hts' ?_ r hr
             intro t' ht'
             rcases List.mem_cons.1 ht' with rfl | h1
-            · exact hts _ List.mem_cons_self
+            · exact hP _ _ (hts _ List.mem_cons_self)
             · exact hrem _ h1
 
 /-! ### `OrigOK` through the mutual block -/
@@ -874,8 +875,10 @@ theorem retry_orig (st : St ρ) ts outs bb (h : OrigOK st) (hs : ∀ t ∈ ts, t
     apply orig_seq _ _ h1
     intro r hr
     have hrem : ∀ t' ∈ r.2.2, t'.node.specsFree = true :=
-      onePass_remain ev (fun t => t.node.specsFree = true) fuel st (t :: ts) outs bb [] hs
+      onePass_remain ev (fun t => t.node.specsFree = true) (fun _ _ h => h) fuel st (t :: ts) outs bb [] hs
         (fun _ h => by cases h) r hr
+    split
+    · exact h1
     split
     · split
       · exact h1
@@ -1014,44 +1017,6 @@ theorem specsFree_kids' {e : Elem} {ks : Nodes} {tail : Option Str}
   simp only [Node.specsFree, Bool.and_eq_true] at h
   exact h.2
 
-/-- the tags still pending after a pass are among those it was given -/
-theorem onePass_pending (ev : Evalr ρ) : ∀ (ts : List Tag) (f : Nat) (st : St ρ) outs bb rem st' o b p,
-    onePass ev f st ts outs bb rem = (st', .ok (o, b, p)) → ∀ x ∈ p, x ∈ ts ∨ x ∈ rem := by
-  intro ts
-  induction ts with
-  | nil =>
-    intro f st outs bb rem st' o b p h x hx
-    cases f with
-    | zero => simp [onePass] at h
-    | succ f =>
-      simp only [onePass, Prod.mk.injEq, Except.ok.injEq] at h
-      obtain ⟨_, _, _, rfl⟩ := h
-      exact Or.inr (List.mem_reverse.mp hx)
-  | cons t ts ihts =>
-    intro f st outs bb rem st' o b p h x hx
-    cases f with
-    | zero => simp [onePass] at h
-    | succ f =>
-      unfold onePass at h
-      dsimp only at h
-      generalize genNode ev f (registerEarly ev st t.node) t.node = r at h
-      obtain ⟨s1, res⟩ := r
-      dsimp only at h
-      split at h
-      · rcases ihts _ _ _ _ _ _ _ _ _ h x hx with h1 | h1
-        · exact Or.inl (List.mem_cons_of_mem _ h1)
-        · exact Or.inr h1
-      · split at h
-        · rcases ihts _ _ _ _ _ _ _ _ _ h x hx with h1 | h1
-          · exact Or.inl (List.mem_cons_of_mem _ h1)
-          · exact Or.inr h1
-        · split at h
-          · simp at h
-          · rcases ihts _ _ _ _ _ _ _ _ _ h x hx with h1 | h1
-            · exact Or.inl (List.mem_cons_of_mem _ h1)
-            · rcases List.mem_cons.mp h1 with rfl | h2
-              · exact Or.inl List.mem_cons_self
-              · exact Or.inr h2
 
 section step
 variable (ev : Evalr ρ) (fuel : Nat) (ih : AllMono ev fuel)
@@ -1359,13 +1324,13 @@ theorem retry_mstep (st : St ρ) ts outs bb f' (hf : fuel + 1 ≤ f') (hok : Ok 
     refine seq_mono hnf (fun h => ih.onePass st _ _ _ _ f0 hf0 hok hs h) ?_
     intro r hr hnf1
     have hok1 := (allOk ev fuel).onePass st (t :: ts) outs bb [] hok hs
-    have hpend : ∀ x ∈ r.2.2, x.node.specsFree = true := by
-      intro x hx
-      have hp := onePass_pending ev (t :: ts) fuel st outs bb [] _ r.1 r.2.1 r.2.2
-        (Prod.ext rfl hr) x hx
-      rcases hp with hp | hp
-      · exact hs x hp
-      · simp at hp
+    have hpend : ∀ x ∈ r.2.2, x.node.specsFree = true :=
+      onePass_remain ev (fun t => t.node.specsFree = true) (fun _ _ h => h) fuel st (t :: ts) outs bb [] hs
+        (fun _ h => by cases h) r hr
+    split
+    · rfl
+    rename_i hgen
+    simp only [hgen] at hnf1
     split
     · rename_i hlen
       simp only [hlen, if_true] at hnf1
@@ -1443,7 +1408,7 @@ def unroll (name : Str) (vals : List Rat) (ks : Nodes) : Nodes :=
   Nodes.ofList (vals.flatMap fun v => varNode name v :: ks.toList)
 
 /-- the tags `processNodes` makes -/
-def tagsOf (ks : Nodes) : List Tag := ks.toList.zipIdx.map fun (n, i) => (⟨i, n⟩ : Tag)
+def tagsOf (ks : Nodes) : List Tag := ks.toList.zipIdx.map fun (n, i) => ({ idx := i, node := n } : Tag)
 
 def LitEval (ev : Evalr ρ) (vals : List Rat) : Prop :=
   ∀ v ∈ vals, ∀ geo env rng, ev.evalAttr geo env rng (loopVarStr v) = .ok (loopVarStr v, rng)
@@ -1688,13 +1653,13 @@ theorem sortOuts_sorted (l : List (Nat × List Ev)) (h : l.Pairwise (fun p q => 
   rw [sortOuts_fold l [] (by simp) h]; simp
 
 theorem zipIdx_tags_idx (l : List Node) (k : Nat) :
-    ((l.zipIdx k).map fun (n, i) => (⟨i, n⟩ : Tag)).map (·.idx) = List.range' k l.length := by
+    ((l.zipIdx k).map fun (n, i) => ({ idx := i, node := n } : Tag)).map (·.idx) = List.range' k l.length := by
   induction l generalizing k with
   | nil => simp
   | cons n l ih => simp [List.zipIdx_cons, List.range'_succ, ih]
 
 theorem zipIdx_tags_node (l : List Node) (k : Nat) :
-    ((l.zipIdx k).map fun (n, i) => (⟨i, n⟩ : Tag)).map (·.node) = l := by
+    ((l.zipIdx k).map fun (n, i) => ({ idx := i, node := n } : Tag)).map (·.node) = l := by
   induction l generalizing k with
   | nil => simp
   | cons n l ih => simp [List.zipIdx_cons, ih]
@@ -2111,7 +2076,7 @@ theorem firstTryLoop_of_B (ev : Evalr ρ) (name : Str) (step : Rat) (ks : Nodes)
 
 namespace UnrollExample
 
-deriving instance DecidableEq for Svgdx.Elem
+-- (DecidableEq Elem is derived at the definition)
 deriving instance DecidableEq for Svgdx.Ctl.Ev
 
 def rect (x : Str) : Elem :=
